@@ -477,3 +477,28 @@ def _slice_iter_any(w, st, fr, path, targs, args, dty):
             return NOT_HANDLED
         acc = tm.binop("or", acc, ret)
     return acc
+
+
+@builtin("core::ops::RangeInclusive::<Idx>::contains", "core::ops::Range::<Idx>::contains")
+def _range_contains(w, st, fr, path, targs, args, dty):
+    r, item = args[0], args[1]
+    if not isinstance(r, Ref) or not isinstance(item, Ref):
+        return NOT_HANDLED
+    rv = w.load(st, r.obj, r.proj)
+    if isinstance(rv, SymObj):
+        rv = w.materialise(rv, st)
+    x = _deref_term(w, st, item)
+    if not (isinstance(rv, Agg) and isinstance(x, T)):
+        return NOT_HANDLED
+    start, end = rv.fields[0], rv.fields[1]
+    if not (isinstance(start, T) and isinstance(end, T)):
+        return NOT_HANDLED
+    signed = bool(targs and targs[0][0] == "int" and targs[0][2])
+    lo = tm.cmp("sle" if signed else "ule", start, x)
+    if "RangeInclusive" in path:
+        hi = tm.cmp("sle" if signed else "ule", x, end)
+        if len(rv.fields) > 2 and isinstance(rv.fields[2], T):
+            hi = tm.binop("and", hi, tm.unop("not", rv.fields[2]))
+    else:
+        hi = tm.cmp("slt" if signed else "ult", x, end)
+    return tm.binop("and", lo, hi)
